@@ -107,11 +107,13 @@ def cases(rng, tier, shard, nshards, phase):
                    "weight_col": layout.index("w") if has_w else None,
                    "delim": rng.choice([",", ",", ";", "|", "\t"]), "mal": mal}
         elif k < 0.85:
-            ncand = rng.randint(1, 6)
+            # two-digit candidate numbers and multiplicities matter: a third of the files have 10-13 candidates
+            ncand = rng.randint(1, 6) if rng.random() < 0.67 else rng.randint(10, 13)
             cands = [f"Cand {i}" for i in range(1, ncand + 1)]
             ballots = []
             for _ in range(rng.randint(1, 8)):
-                ballots.append((rng.randint(1, 20), rng.sample(range(1, ncand + 1), rng.randint(1, ncand))))
+                ballots.append((rng.choice([rng.randint(1, 20), rng.randint(100, 1200)]),
+                                rng.sample(range(1, ncand + 1), rng.randint(1, min(ncand, 7)))))
             mal = rng.choice([None] * 6 + ["wrong-cand-count", "first-row-3", "empty-file", "missing-file"])
             yield {"op": "scot", "ncand": ncand, "seats": rng.randint(1, ncand), "cands": cands,
                    "parties": [rng.choice(["P", "Q", "Ind"]) for _ in cands], "ballots": ballots,
